@@ -83,15 +83,25 @@ func replayAll(w *World, out *RunOutput, hfiles map[string][]string) {
 			if j.viol != nil {
 				j.viol.Replayed = true
 				if j.viol.Fault {
-					j.viol.Confirmed = nr.Outcome == "fault"
+					j.viol.Confirmed = nr.Outcome == "fault" || nr.Outcome == "killed"
+				} else if nr.Outcome == "killed" {
+					// the process died (out of memory / timeout): confirms only a resource violation
+					j.viol.Confirmed = strings.Contains(j.viol.Msg, "resource:")
 				} else {
 					for _, ev := range nr.Events {
 						if ev.Kind == "assert" && ev.ID == j.viol.Assert && ev.Val == "false" {
 							j.viol.Confirmed = true
 						}
 					}
+					for _, ev := range nr.Events {
+						if ev.Kind == "oracle" && ev.Val != "true" {
+							j.viol.Confirmed = false
+							j.viol.OracleMismatch = ev.ID + ": " + ev.Val
+						}
+					}
 				}
 				j.viol.NativeOutcome = nr.Outcome + " " + nr.Panic
+				j.viol.NativeEvents = nr.Events
 				continue
 			}
 			j.rep.Replayed++
@@ -108,7 +118,16 @@ func replayAll(w *World, out *RunOutput, hfiles map[string][]string) {
 
 func compareReplay(rc *ReplayCase, nr nativeResult) string {
 	exp := rc.Expect
-	got := nr.Events
+	var got []ReplayEvent
+	for _, ev := range nr.Events {
+		if ev.Kind == "oracle" {
+			if ev.Val != "true" {
+				return fmt.Sprintf("inputs=%v: reference oracle %s disagrees with go/types: %s", rc.Inputs, ev.ID, ev.Val)
+			}
+			continue
+		}
+		got = append(got, ev)
+	}
 	n := len(exp)
 	if len(got) < n {
 		n = len(got)
@@ -165,39 +184,83 @@ func runNative(w *World, dir string, p *ssa.Package, jobs []*replayJob, hfiles m
 	ob, _ := json.Marshal(map[string]interface{}{"Replace": repl})
 	ovPath := filepath.Join(work, "overlay.json")
 	os.WriteFile(ovPath, ob, 0644)
+	bin := filepath.Join(work, "replay.test")
+	env := append(os.Environ(), "GOFLAGS=-mod=mod", "GOPROXY=off", "GOSUMDB=off", "GOTOOLCHAIN=local")
+	build := exec.Command("go", "test", "-c", "-o", bin, "-tags", "verif", "-vet=off", "-overlay", ovPath, "./"+dir)
+	build.Dir = *flagRepo
+	build.Env = env
+	if outb, err := build.CombinedOutput(); err != nil {
+		s := string(outb)
+		if len(s) > 1500 {
+			s = s[len(s)-1500:]
+		}
+		return nil, fmt.Errorf("go test -c: %v: %s", err, s)
+	}
 	type nc struct {
 		Harness string            `json:"harness"`
 		Inputs  map[string]string `json:"inputs"`
 	}
-	var cases []nc
-	for _, j := range jobs {
-		cases = append(cases, nc{j.rc.Harness, j.rc.Inputs})
-	}
-	cb, _ := json.Marshal(cases)
-	casePath := filepath.Join(work, "cases.json")
-	outPath := filepath.Join(work, "results.json")
-	os.WriteFile(casePath, cb, 0644)
-	cmd := exec.Command("go", "test", "-tags", "verif", "-vet=off", "-count=1", "-overlay", ovPath, "-run", "^TestVerifReplay$", "-timeout", "300s", "./"+dir)
-	cmd.Dir = *flagRepo
-	cmd.Env = append(os.Environ(), "GOFLAGS=-mod=mod", "GOPROXY=off", "GOSUMDB=off", "GOTOOLCHAIN=local",
-		"VERIF_REPLAY="+casePath, "VERIF_REPLAY_OUT="+outPath)
-	var buf bytes.Buffer
-	cmd.Stdout = &buf
-	cmd.Stderr = &buf
-	if err := cmd.Run(); err != nil {
-		s := buf.String()
-		if len(s) > 1500 {
-			s = s[len(s)-1500:]
+	runBatch := func(cases []nc, tag string, limitMem bool) ([]nativeResult, error) {
+		cb, _ := json.Marshal(cases)
+		casePath := filepath.Join(work, "cases-"+tag+".json")
+		outPath := filepath.Join(work, "results-"+tag+".json")
+		os.WriteFile(casePath, cb, 0644)
+		sh := fmt.Sprintf("exec %s -test.run '^TestVerifReplay$' -test.timeout 120s", bin)
+		if limitMem {
+			sh = "ulimit -v 6000000; " + sh
 		}
-		return nil, fmt.Errorf("go test: %v: %s", err, s)
+		cmd := exec.Command("timeout", "150", "bash", "-c", sh)
+		cmd.Dir = filepath.Join(*flagRepo, dir)
+		cmd.Env = append(env, "VERIF_REPLAY="+casePath, "VERIF_REPLAY_OUT="+outPath)
+		var buf bytes.Buffer
+		cmd.Stdout = &buf
+		cmd.Stderr = &buf
+		runErr := cmd.Run()
+		rb, err := os.ReadFile(outPath)
+		if err != nil {
+			s := buf.String()
+			if len(s) > 600 {
+				s = s[len(s)-600:]
+			}
+			return nil, fmt.Errorf("replay process died (%v): %s", runErr, s)
+		}
+		var results []nativeResult
+		if err := json.Unmarshal(rb, &results); err != nil {
+			return nil, err
+		}
+		return results, nil
 	}
-	rb, err := os.ReadFile(outPath)
-	if err != nil {
-		return nil, err
+	results := make([]nativeResult, len(jobs))
+	// validation cases in one batch, violation cases one process each (they may kill the process)
+	var batch []nc
+	var batchIdx []int
+	for i, j := range jobs {
+		if j.viol == nil {
+			batch = append(batch, nc{j.rc.Harness, j.rc.Inputs})
+			batchIdx = append(batchIdx, i)
+		}
 	}
-	var results []nativeResult
-	if err := json.Unmarshal(rb, &results); err != nil {
-		return nil, err
+	if len(batch) > 0 {
+		rs, err := runBatch(batch, "b", false)
+		if err != nil {
+			return nil, err
+		}
+		for k, i := range batchIdx {
+			if k < len(rs) {
+				results[i] = rs[k]
+			}
+		}
+	}
+	for i, j := range jobs {
+		if j.viol == nil {
+			continue
+		}
+		rs, err := runBatch([]nc{{j.rc.Harness, j.rc.Inputs}}, fmt.Sprintf("v%d", i), true)
+		if err != nil || len(rs) != 1 {
+			results[i] = nativeResult{Outcome: "killed", Panic: fmt.Sprint(err)}
+			continue
+		}
+		results[i] = rs[0]
 	}
 	return results, nil
 }
